@@ -409,6 +409,9 @@ convert_drcs(cache_page *vtp, uint8_t *raw)
 			break;
 
 		case DRCS_MODE_12_10_2:
+			if (i + 2 > 48)
+				goto invalid_ptu; /* needs two PTUs */
+
 			if (vtp->data.drcs.invalid & (3ULL << i)) {
 				vtp->data.drcs.invalid |= (3ULL << i);
 				d += 60;
@@ -426,6 +429,9 @@ convert_drcs(cache_page *vtp, uint8_t *raw)
 			break;
 
 		case DRCS_MODE_12_10_4:
+			if (i + 4 > 48)
+				goto invalid_ptu; /* needs four PTUs */
+
 			if (vtp->data.drcs.invalid & (15ULL << i)) {
 				vtp->data.drcs.invalid |= (15ULL << i);
 				d += 60;
@@ -445,21 +451,25 @@ convert_drcs(cache_page *vtp, uint8_t *raw)
 			break;
 
 		case DRCS_MODE_6_5_4:
-			for (j = 0; j < 20; p += 4, d += 6, j++) {
+			/* One PTU: 5 rows of 6 pixels, 4 bytes (bit planes)
+			   each. Every pixel covers 2 x 2 pixels of the
+			   12 x 10 cell. */
+			for (j = 0; j < 5; p += 4, d += 12, j++) {
 				q = expand[p[0] & 0x3F]
 				  + expand[p[1] & 0x3F] * 2
 				  + expand[p[2] & 0x3F] * 4
 				  + expand[p[3] & 0x3F] * 8;
-				d[0] = (q & 15) * 0x11;
-				d[1] = ((q >> 4) & 15) * 0x11;
-				d[2] = ((q >> 8) & 15) * 0x11;
-				d[3] = ((q >> 12) & 15) * 0x11;
-				d[4] = ((q >> 16) & 15) * 0x11;
-				d[5] = (q >> 20) * 0x11;
+				d[0] = d[6 + 0] = (q & 15) * 0x11;
+				d[1] = d[6 + 1] = ((q >> 4) & 15) * 0x11;
+				d[2] = d[6 + 2] = ((q >> 8) & 15) * 0x11;
+				d[3] = d[6 + 3] = ((q >> 12) & 15) * 0x11;
+				d[4] = d[6 + 4] = ((q >> 16) & 15) * 0x11;
+				d[5] = d[6 + 5] = (q >> 20) * 0x11;
 			}
 			break;
 
 		default:
+		invalid_ptu:
 			vtp->data.drcs.invalid |= (1ULL << i);
 			p += 20;
 			d += 60;
